@@ -96,7 +96,7 @@ func runC20(c *Ctx) error {
 	{
 		hr := TD.NewRun("close-abreast-hammer", nil)
 		hr.Key = "close-abreast-hammer"
-		subdecCloseHammer(hr, c.Pick(1500, 40000))
+		subdecCloseHammer(hr, c.Pick(1500, 40000), true)
 	}
 	subdecReplayAll(c, TD)
 	return nil
